@@ -38,7 +38,9 @@ ASSUMPTIONS = ["scalar statistics compared to 1e-10 relative (same operands, dif
 QUICK_JOBS = 12
 MIN_MONITORS = {"*": {"stat.chi_squared": 20, "stat.noise_normalization": 20, "stat.log_likelihood": 20, "garbage.invariance": 10,
                       "map.residual_flux_fraction": 20, "map.signal_to_noise": 20, "evidence.terms": 10, "evidence.composition": 10,
-                      "figure_of_merit": 20, "contract:fit_util.log_evidence_from": 5}}
+                      "figure_of_merit": 20, "contract:fit_util.log_evidence_from": 5,
+                      "interf.signal_to_noise_map": 20, "interf.normalized_residual_map": 20, "interf.chi_squared_map": 20, "interf.chi_squared": 20,
+                      "interf.noise_normalization": 20, "interf.log_likelihood": 20, "interf.log_evidence": 5, "interf.dirty_maps": 20}}
 
 
 def plan(tier, seed):
@@ -48,6 +50,8 @@ def plan(tier, seed):
     s2 = 6 if tier == "quick" else 15
     units = ([{"kind": "plain", "start": s, "stop": min(n, s + step), "w": step * 0.2} for s in range(0, n, step)] +
              [{"kind": "inv", "start": s, "stop": min(ni, s + s2), "w": s2} for s in range(0, ni, s2)])
+    nv = 200 if tier == "quick" else 8000
+    units += [{"kind": "interf", "start": s_, "stop": min(nv, s_ + 20), "w": 4} for s_ in range(0, nv, 20)]
     if tier == "thorough":
         units.append({"kind": "suite", "w": 10 ** 7})   # the repository's own tests with the contracts installed (DESIGN 1.5)
     return units
@@ -91,8 +95,24 @@ def install_contracts(ctx):
 
 
 def setup(ctx):
-    aa = ctx.aa = env.boot("base")
+    aa = ctx.aa = env.boot("base", pylops=True)      # TransformerDFT needs pylops.LinearOperator merely as a base class (stand-in)
     install_contracts(ctx)
+
+    class VerifFitVis(aa.FitInterferometer):
+        def __init__(self, dataset, model, inv=None, **k):
+            super().__init__(dataset=dataset, **k)
+            self._m = model
+            self._inv = inv
+
+        @property
+        def model_data(self):
+            return self._m
+
+        @property
+        def inversion(self):
+            return self._inv
+
+    ctx.FitVis = VerifFitVis
 
     class VerifFit(aa.FitImaging):
         def __init__(self, dataset, model, inv=None, **k):
@@ -317,6 +337,105 @@ def run_inv(ctx, i):
              sample=lambda: {"objects": desc, "regularized_parameters": len(reg_idx), "log_evidence": ev, "sky": sky})
 
 
+# ------------------------------------------------------------------------------ fits of visibilities
+def run_interf(ctx, i):
+    """FitInterferometer (the other FitDataset subclass): every map is defined per component - the real and the imaginary part of a
+    visibility are two measurements, each with its own noise value - and the scalars sum over both components."""
+    aa = ctx.aa
+    if not ctx.begin("interf:%d" % i):
+        return
+    rng = gen.rng_for(ctx.seed, NO, 5, i)
+    H, Wd = int(rng.integers(2, 6)), int(rng.integers(2, 6))
+    m, fam = gen.random_mask(rng, H, Wd)
+    if (~m).sum() < 2:
+        m.ravel()[rng.choice(H * Wd, size=2, replace=False)] = False
+    ps = float(rng.uniform(0.05, 0.5))
+    mask = aa.Mask2D(mask=m.copy(), pixel_scales=ps)
+    K = int(rng.integers(1, 4)) if i % 10 == 0 else int(rng.integers(4, 25))
+    uv = rng.normal(size=(K, 2)) * float(np.exp(rng.uniform(np.log(1e2), np.log(1e5))))
+    dyn = np.exp(rng.uniform(-3, 3, size=K))
+    D = (rng.normal(size=K) + 1j * rng.normal(size=K)) * dyn           # all four sign combinations occur
+    if K >= 4:
+        D[0] = abs(D[0].real) - 1j * abs(D[0].imag)
+        D[1] = -abs(D[1].real) + 1j * abs(D[1].imag)
+        D[2] = -abs(D[2].real) - 1j * abs(D[2].imag)
+        D[3] = 0.0 + 1j * D[3].imag if i % 2 else D[3].real + 0.0j       # a component that is exactly zero
+    # real and imaginary noise differ (by up to two orders of magnitude)
+    Nz = np.exp(rng.uniform(-2, 2, size=K)) + 1j * np.exp(rng.uniform(-2, 2, size=K))
+    use_inv = (i % 4 == 3) and int((~m).sum()) >= 4
+    ok, ds = ctx.guarded("interf.construct", lambda: aa.Interferometer(
+        data=aa.Visibilities(visibilities=D.copy()), noise_map=aa.VisibilitiesNoiseMap(visibilities=Nz.copy()),
+        uv_wavelengths=uv.copy(), real_space_mask=mask, transformer_class=aa.TransformerDFT))
+    if not ok:
+        return
+    inv = None
+    if use_inv:
+        osamp = aa.OverSamplerUniform(mask=mask, sub_size=1)
+        mp, _ = gen_aa.mapper(aa, rng, mask, osamp, "rect", aa.reg.Constant(coefficient=float(rng.uniform(0.3, 3))))
+        ok, inv = ctx.guarded("interf.inversion", lambda: aa.Inversion(
+            dataset=ds, linear_obj_list=[mp], settings=aa.SettingsInversion(use_w_tilde=False, use_positive_only_solver=False)))
+        if not ok:
+            return
+        try:
+            Md = np.array(_np(inv.mapped_reconstructed_data), dtype=complex)
+        except aa.exc.InversionException:
+            ctx.skipped["interf:InversionException(allowed)"] += 1
+            return
+    else:
+        Md = (rng.normal(size=K) + 1j * rng.normal(size=K)) * dyn * float(rng.uniform(0.2, 1.5))
+        if K >= 2 and i % 3 == 0:
+            Md[-1] = D[-1]                                                  # a visibility fitted exactly
+    W = dict(data=D, noise_map=Nz, model_data=Md, with_inversion=use_inv)
+    R = D - Md
+    exp = {"residual_map": R,
+           "normalized_residual_map": R.real / Nz.real + 1j * (R.imag / Nz.imag),
+           "chi_squared_map": (R.real / Nz.real) ** 2 + 1j * (R.imag / Nz.imag) ** 2,
+           "signal_to_noise_map": np.maximum(D.real / Nz.real, 0.0) + 1j * np.maximum(D.imag / Nz.imag, 0.0)}
+    chi2 = float(((R.real / Nz.real) ** 2).sum() + ((R.imag / Nz.imag) ** 2).sum())
+    nn = float(np.log(2 * np.pi * Nz.real ** 2).sum() + np.log(2 * np.pi * Nz.imag ** 2).sum())
+    for mode in (False, True):
+        model = aa.Visibilities(visibilities=Md.copy())
+        ok, fit = ctx.guarded("interf.construct", lambda: ctx.FitVis(ds, model, inv, use_mask_in_fit=mode))
+        if not ok:
+            continue
+        for q, e in exp.items():
+            ok, g = ctx.guarded("interf." + q, lambda: np.array(_np(getattr(fit, q)), dtype=complex))
+            if ok:
+                good = g.shape == e.shape and np.all(np.abs(g.real - e.real) <= 1e-12 * np.maximum(1.0, np.abs(e.real))) \
+                    and np.all(np.abs(g.imag - e.imag) <= 1e-12 * np.maximum(1.0, np.abs(e.imag)))
+                ctx.check(bool(good), "interf." + q, use_mask_in_fit=mode, expected=e, got=g, **W)
+        for q, e in (("chi_squared", chi2), ("noise_normalization", nn), ("log_likelihood", -0.5 * (chi2 + nn))):
+            ok, g = ctx.guarded("interf." + q, lambda: complex(_np(getattr(fit, q))))
+            if ok:
+                ctx.check(g.imag == 0.0 and rel(g.real, e), "interf." + q, use_mask_in_fit=mode, expected=e, got=g, **W)
+        if inv is None:
+            ok, g = ctx.guarded("interf.figure_of_merit", lambda: float(np.real(_np(fit.figure_of_merit))))
+            if ok:
+                ctx.check(rel(g, -0.5 * (chi2 + nn)), "interf.figure_of_merit", use_mask_in_fit=mode, expected=-0.5 * (chi2 + nn), got=g, **W)
+        else:
+            ev = -0.5 * (chi2 + float(inv.regularization_term) + float(inv.log_det_curvature_reg_matrix_term)
+                         - float(inv.log_det_regularization_matrix_term) + nn)
+            for q in ("log_evidence", "figure_of_merit"):
+                ok, g = ctx.guarded("interf." + q, lambda: float(np.real(_np(getattr(fit, q)))))
+                if ok:
+                    ctx.check(rel(g, ev), "interf." + q, use_mask_in_fit=mode, expected=ev, got=g, **W)
+        # the dirty maps are the real-space images of the maps above
+        for q, src in (("dirty_signal_to_noise_map", "signal_to_noise_map"), ("dirty_residual_map", "residual_map"),
+                       ("dirty_normalized_residual_map", "normalized_residual_map"), ("dirty_chi_squared_map", "chi_squared_map")):
+            ok, g = ctx.guarded("interf.dirty_maps", lambda: np.array(_np(getattr(fit, q)), dtype=float))
+            if ok:
+                e = np.array(_np(ds.transformer.image_from(visibilities=aa.Visibilities(visibilities=exp[src].copy()))), dtype=float)
+                ctx.check(g.shape == e.shape and bool(np.all(np.abs(g - e) <= 1e-9 * max(1.0, float(np.abs(e).max())))), "interf.dirty_maps",
+                          quantity=q, use_mask_in_fit=mode, expected=e, got=g, **W)
+    signs = sorted({("+" if d.real >= 0 else "-") + ("+" if d.imag >= 0 else "-") for d in D})
+    ctx.case("interf", D, Nz, Md, nontrivial=K >= 2, cls=["interferometer_fit", "inversion:%s" % use_inv, "sign_combinations:%d" % len(signs)],
+             sample=lambda: {"visibilities": K, "with_inversion": use_inv, "sign_combinations": signs})
+
+
 def run_unit(ctx, u):
+    if u["kind"] == "interf":
+        for i in range(u["start"], u["stop"]):
+            run_interf(ctx, i)
+        return
     for i in range(u["start"], u["stop"]):
         (run_plain if u["kind"] == "plain" else run_inv)(ctx, i)
